@@ -209,3 +209,25 @@ Theorem C01_circuit_computes_bit_semantics_one_witness :
           (o = None -> skipn 161 out = vouts).
 Proof. exact lower_program_sound_one_witness. Qed.
 Print Assumptions C01_circuit_computes_bit_semantics_one_witness.
+
+(* ------------------------------------------------------------------ the same step for whole
+   PROGRAMS of the imperative scalar fragment (blocks, let / let mut, assignment, if/else and
+   && / || whose branches and operands have effects, all operators and casts; scalar
+   parameters; no calls, loops, aggregates or global constants yet): whenever the bit-level
+   semantics is defined, it returns exactly the bits Sem.run_main returns, or records exactly
+   the panic Sem.run_main raises.  [in_imp_fragment] is a boolean function; the extracted
+   checker evaluates it on every tied program and the evidence reports how many programs of a
+   run are covered by this theorem (coverage.theorem_fragments). *)
+From GV Require Import Compile.TSemSemStmt Compile.Fragment.
+
+Theorem C01_imperative_scalar_programs_bit_semantics_is_source_semantics :
+  forall P fuel fw fT args o outs,
+  in_imp_fragment fw P = true ->
+  tsem_program fT P args = Ok (o, outs) ->
+  match Sem.run_main fuel P args with
+  | Sem.RunOk bits _ => o = None /\ outs = bits
+  | Sem.RunPanic r m => o = Some (preason_num (pr r), PanicSem.ploc32 (ploc_of m))
+  | Sem.RunStuck _ | Sem.RunNoFuel => True
+  end.
+Proof. exact in_imp_fragment_sound. Qed.
+Print Assumptions C01_imperative_scalar_programs_bit_semantics_is_source_semantics.
